@@ -187,7 +187,10 @@ Lemma get_val_rec w e P offs tid t i :
 Proof.
   intros Hi Li Ho Ht (pre & post & EP & Epre).
   unfold get_val. rewrite Hi.
-  destruct (Z.ltb_spec (Z.of_nat i) 0); [lia|]. rewrite Nat2Z.id.
+  destruct (Z.ltb_spec (Z.of_nat i) 0); [lia|].
+  destruct (Z.ltb_spec (Z.of_nat (length (flat_map (enc w) offs))) (Z.of_nat i * Z.of_nat w)) as [L0|_].
+  { rewrite flat_enc_length in L0. nia. }
+  rewrite Nat2Z.id.
   unfold slice_from. rewrite flat_enc_length.
   destruct (Nat.ltb_spec (length offs * w) (i * w)) as [L|_]; [nia|].
   rewrite skipn_flat_enc.
